@@ -56,7 +56,8 @@ contract(f"{CH}:CommonHeader.decode_from_int", props=P + ["C04"], shapes={"heade
 contract(f"{CH}:CommonHeader.decode_from_bytes", props=P + ["C04"], shapes={"header": T.bytes(0, 2000)}, returns=COMMON,
          raises={"flexstack.geonet.exceptions:DecodeError": "len(header) < 8",
                  "ValueError": "len(header) >= 8 and (bits(be(header, 0, 8), 60, 4) > 3 or bits(be(header, 0, 8), 52, 4) > 6 or not hst_known(bits(be(header, 0, 8), 52, 4), bits(be(header, 0, 8), 48, 4)))"},
-         ensures={"fields": "result.nh.value == bits(be(header, 0, 8), 60, 4) and result.ht.value == bits(be(header, 0, 8), 52, 4) and result.hst.value == bits(be(header, 0, 8), 48, 4) and tc_int(result.tc) == be(header, 2, 1) and result.flags == bits(be(header, 3, 1), 7, 1) * 128 and result.pl == be(header, 4, 2) and result.mhl == be(header, 6, 1) and result.reserved == be(header, 7, 1)", "valid": "common_header_valid(result)"},
+         ensures={"fields": "result.nh.value == bits(be(header, 0, 8), 60, 4) and result.ht.value == bits(be(header, 0, 8), 52, 4) and result.hst.value == bits(be(header, 0, 8), 48, 4) and tc_int(result.tc) == be(header, 2, 1) and result.flags == bits(be(header, 3, 1), 7, 1) * 128 and result.pl == be(header, 4, 2) and result.mhl == be(header, 6, 1) and result.reserved == be(header, 7, 1)", "valid": "common_header_valid(result)",
+                  "hst_class": "hst_class_ok(result.ht, result.hst)"},
          **S)
 
 # ---------------------------------------------------------------- GN address
